@@ -20,11 +20,11 @@ import (
 type loadReq struct {
 	s        *setting
 	validate bool
-	locEnv   bool        // config locations through REFINERY_CONFIG instead of -c
-	eqForm   bool        // flags as --long=value (otherwise "--long value" when the value allows it)
-	flags    [][]string  // per option of the setting: raw values of the flag occurrences (nil: not given)
-	envs     []*string   // per option: the environment variable (nil: unset)
-	files    [2]val      // the setting's value in file 1 / file 2 (absent: not mentioned)
+	locEnv   bool              // config locations through REFINERY_CONFIG instead of -c
+	eqForm   bool              // flags as --long=value (otherwise "--long value" when the value allows it)
+	flags    [][]string        // per option of the setting: raw values of the flag occurrences (nil: not given)
+	envs     []*string         // per option: the environment variable (nil: unset)
+	files    [2]val            // the setting's value in file 1 / file 2 (absent: not mentioned)
 	vars     map[string]string // environment for ${VAR} expansion
 }
 
@@ -170,41 +170,43 @@ func fieldVal(s *setting, main any) val {
 
 // getters of the public Config interface that read one table setting
 var getters = map[string]func(c config.Config) val{
-	"Network.ListenAddr":                      func(c config.Config) val { return strVal(c.GetListenAddr()) },
-	"Network.PeerListenAddr":                  func(c config.Config) val { return strVal(c.GetPeerListenAddr()) },
-	"Network.HoneycombAPI":                    func(c config.Config) val { return strVal(c.GetHoneycombAPI()) },
-	"Network.AdditionalHeaders":               func(c config.Config) val { return mapVal(c.GetAdditionalHeaders()) },
-	"GRPCServerParameters.ListenAddr":         func(c config.Config) val { return strVal(c.GetGRPCListenAddr()) },
-	"Debugging.DebugServiceAddr":              func(c config.Config) val { return strVal(c.GetDebugServiceAddr()) },
-	"Debugging.QueryAuthToken":                func(c config.Config) val { return strVal(c.GetQueryAuthToken()) },
-	"Debugging.AdditionalErrorFields":         func(c config.Config) val { return listVal(c.GetAdditionalErrorFields()) },
-	"RedisPeerManagement.Host":                func(c config.Config) val { return strVal(c.GetRedisPeerManagement().Host) },
-	"RedisPeerManagement.ClusterHosts":        func(c config.Config) val { return listVal(c.GetRedisPeerManagement().ClusterHosts) },
-	"RedisPeerManagement.Username":            func(c config.Config) val { return strVal(c.GetRedisPeerManagement().Username) },
-	"RedisPeerManagement.Password":            func(c config.Config) val { return strVal(c.GetRedisPeerManagement().Password) },
-	"RedisPeerManagement.AuthCode":            func(c config.Config) val { return strVal(c.GetRedisPeerManagement().AuthCode) },
-	"PeerManagement.Type":                     func(c config.Config) val { return strVal(c.GetPeerManagementType()) },
-	"PeerManagement.Peers":                    func(c config.Config) val { return listVal(c.GetPeers()) },
-	"PeerManagement.Identifier":               func(c config.Config) val { return strVal(c.GetRedisIdentifier()) },
-	"PeerManagement.IdentifierInterfaceName":  func(c config.Config) val { return strVal(c.GetIdentifierInterfaceName()) },
-	"AccessKeys.SendKey":                      func(c config.Config) val { return strVal(c.GetAccessKeyConfig().SendKey) },
-	"AccessKeys.SendKeyMode":                  func(c config.Config) val { return strVal(c.GetAccessKeyConfig().SendKeyMode) },
-	"AccessKeys.ReceiveKeys":                  func(c config.Config) val { return listVal(c.GetAccessKeyConfig().ReceiveKeys) },
-	"General.DatasetPrefix":                   func(c config.Config) val { return strVal(c.GetDatasetPrefix()) },
-	"Logger.Type":                             func(c config.Config) val { return strVal(c.GetLoggerType()) },
-	"HoneycombLogger.APIKey":                  func(c config.Config) val { return strVal(c.GetHoneycombLoggerConfig().APIKey) },
-	"HoneycombLogger.APIHost":                 func(c config.Config) val { return strVal(c.GetHoneycombLoggerConfig().APIHost) },
-	"HoneycombLogger.AdditionalAttributes":    func(c config.Config) val { return mapVal(c.GetHoneycombLoggerConfig().AdditionalAttributes) },
-	"OTelMetrics.APIKey":                      func(c config.Config) val { return strVal(c.GetOTelMetricsConfig().APIKey) },
-	"OTelMetrics.AdditionalAttributes":        func(c config.Config) val { return mapVal(c.GetOTelMetricsConfig().AdditionalAttributes) },
-	"OTelTracing.APIKey":                      func(c config.Config) val { return strVal(c.GetOTelTracingConfig().APIKey) },
-	"OpAMP.Endpoint":                          func(c config.Config) val { return strVal(c.GetOpAMPConfig().Endpoint) },
-	"Collection.AvailableMemory":              func(c config.Config) val { return val{K: 'n', S: strconv.FormatUint(uint64(c.GetCollectionConfig().AvailableMemory), 10)} },
-	"IDFields.TraceNames":                     func(c config.Config) val { return listVal(c.GetTraceIdFieldNames()) },
-	"IDFields.ParentNames":                    func(c config.Config) val { return listVal(c.GetParentIdFieldNames()) },
-	"Specialized.AdditionalAttributes":        func(c config.Config) val { return mapVal(c.GetAdditionalAttributes()) },
-	"StressRelief.Mode":                       func(c config.Config) val { return strVal(c.GetStressReliefConfig().Mode) },
-	"PrometheusMetrics.ListenAddr":            func(c config.Config) val { return strVal(c.GetPrometheusMetricsConfig().ListenAddr) },
+	"Network.ListenAddr":                     func(c config.Config) val { return strVal(c.GetListenAddr()) },
+	"Network.PeerListenAddr":                 func(c config.Config) val { return strVal(c.GetPeerListenAddr()) },
+	"Network.HoneycombAPI":                   func(c config.Config) val { return strVal(c.GetHoneycombAPI()) },
+	"Network.AdditionalHeaders":              func(c config.Config) val { return mapVal(c.GetAdditionalHeaders()) },
+	"GRPCServerParameters.ListenAddr":        func(c config.Config) val { return strVal(c.GetGRPCListenAddr()) },
+	"Debugging.DebugServiceAddr":             func(c config.Config) val { return strVal(c.GetDebugServiceAddr()) },
+	"Debugging.QueryAuthToken":               func(c config.Config) val { return strVal(c.GetQueryAuthToken()) },
+	"Debugging.AdditionalErrorFields":        func(c config.Config) val { return listVal(c.GetAdditionalErrorFields()) },
+	"RedisPeerManagement.Host":               func(c config.Config) val { return strVal(c.GetRedisPeerManagement().Host) },
+	"RedisPeerManagement.ClusterHosts":       func(c config.Config) val { return listVal(c.GetRedisPeerManagement().ClusterHosts) },
+	"RedisPeerManagement.Username":           func(c config.Config) val { return strVal(c.GetRedisPeerManagement().Username) },
+	"RedisPeerManagement.Password":           func(c config.Config) val { return strVal(c.GetRedisPeerManagement().Password) },
+	"RedisPeerManagement.AuthCode":           func(c config.Config) val { return strVal(c.GetRedisPeerManagement().AuthCode) },
+	"PeerManagement.Type":                    func(c config.Config) val { return strVal(c.GetPeerManagementType()) },
+	"PeerManagement.Peers":                   func(c config.Config) val { return listVal(c.GetPeers()) },
+	"PeerManagement.Identifier":              func(c config.Config) val { return strVal(c.GetRedisIdentifier()) },
+	"PeerManagement.IdentifierInterfaceName": func(c config.Config) val { return strVal(c.GetIdentifierInterfaceName()) },
+	"AccessKeys.SendKey":                     func(c config.Config) val { return strVal(c.GetAccessKeyConfig().SendKey) },
+	"AccessKeys.SendKeyMode":                 func(c config.Config) val { return strVal(c.GetAccessKeyConfig().SendKeyMode) },
+	"AccessKeys.ReceiveKeys":                 func(c config.Config) val { return listVal(c.GetAccessKeyConfig().ReceiveKeys) },
+	"General.DatasetPrefix":                  func(c config.Config) val { return strVal(c.GetDatasetPrefix()) },
+	"Logger.Type":                            func(c config.Config) val { return strVal(c.GetLoggerType()) },
+	"HoneycombLogger.APIKey":                 func(c config.Config) val { return strVal(c.GetHoneycombLoggerConfig().APIKey) },
+	"HoneycombLogger.APIHost":                func(c config.Config) val { return strVal(c.GetHoneycombLoggerConfig().APIHost) },
+	"HoneycombLogger.AdditionalAttributes":   func(c config.Config) val { return mapVal(c.GetHoneycombLoggerConfig().AdditionalAttributes) },
+	"OTelMetrics.APIKey":                     func(c config.Config) val { return strVal(c.GetOTelMetricsConfig().APIKey) },
+	"OTelMetrics.AdditionalAttributes":       func(c config.Config) val { return mapVal(c.GetOTelMetricsConfig().AdditionalAttributes) },
+	"OTelTracing.APIKey":                     func(c config.Config) val { return strVal(c.GetOTelTracingConfig().APIKey) },
+	"OpAMP.Endpoint":                         func(c config.Config) val { return strVal(c.GetOpAMPConfig().Endpoint) },
+	"Collection.AvailableMemory": func(c config.Config) val {
+		return val{K: 'n', S: strconv.FormatUint(uint64(c.GetCollectionConfig().AvailableMemory), 10)}
+	},
+	"IDFields.TraceNames":              func(c config.Config) val { return listVal(c.GetTraceIdFieldNames()) },
+	"IDFields.ParentNames":             func(c config.Config) val { return listVal(c.GetParentIdFieldNames()) },
+	"Specialized.AdditionalAttributes": func(c config.Config) val { return mapVal(c.GetAdditionalAttributes()) },
+	"StressRelief.Mode":                func(c config.Config) val { return strVal(c.GetStressReliefConfig().Mode) },
+	"PrometheusMetrics.ListenAddr":     func(c config.Config) val { return strVal(c.GetPrometheusMetricsConfig().ListenAddr) },
 }
 
 func runLoad(q loadReq) (res loadRes) {
